@@ -546,3 +546,41 @@ package scanner
 //@   ensures panics <==> (c != '/' || old(len(s.returnToStep.vals)) == 0)
 //@   ensures normal ==> result == scanContinue && s.annotation == annotationNone && len(s.finds) == old(len(s.finds)) + 1 && s.finds[old(len(s.finds))] == lexeme.MultiLineAnnotationEnd
 //@           && s.step == old(s.returnToStep.vals[len(s.returnToStep.vals) - 1]) && len(s.returnToStep.vals) == old(len(s.returnToStep.vals)) - 1
+
+// a user comment `# ...` runs to the end of the line (LF or CR alike); the line end is
+// reported and handed back to the interrupted step
+//@ func stateInlineComment(s, c)
+//@   props C13
+//@   requires s != nil && s.returnToStep != nil && 1 <= s.index && s.index <= len(s.data)
+//@   maypanic
+//@   modifies s.step, s.index, s.finds, s.finds[*], s.returnToStep.vals
+//@   ensures panics <==> (isNewLine(c) && old(len(s.returnToStep.vals)) == 0)
+//@   ensures normal ==> result == scanContinue
+//@   ensures normal && !isNewLine(c) ==> s.step == old(s.step) && s.index == old(s.index) && len(s.finds) == old(len(s.finds)) && len(s.returnToStep.vals) == old(len(s.returnToStep.vals))
+//@   ensures normal && isNewLine(c) ==> s.index == old(s.index) - 1 && len(s.finds) == old(len(s.finds)) + 1 && s.finds[old(len(s.finds))] == lexeme.NewLine
+//@           && s.step == old(s.returnToStep.vals[len(s.returnToStep.vals) - 1]) && len(s.returnToStep.vals) == old(len(s.returnToStep.vals)) - 1
+//@ func finishShortcut(s)
+//@   props C03 C06
+//@   requires s != nil && s.prevContextsStack != nil
+//@   maypanic
+//@   modifies s.step, s.finds, s.finds[*], s.context.Type, s.context.ArrayHasItem, s.prevContextsStack.vals
+//@   ensures normal ==> len(s.finds) >= old(len(s.finds)) + 2 && s.finds[old(len(s.finds))] == lexeme.TypesShortcutEnd && s.finds[old(len(s.finds)) + 1] == lexeme.MixedValueEnd
+//@   ensures normal && old(s.context.Type) == contextTypeObject ==> len(s.finds) == old(len(s.finds)) + 3 && s.finds[old(len(s.finds)) + 2] == lexeme.ObjectValueEnd && s.step == stateAfterObjectValue
+//@   ensures normal && old(s.context.Type) == contextTypeArray ==> len(s.finds) == old(len(s.finds)) + 3 && s.finds[old(len(s.finds)) + 2] == lexeme.ArrayItemEnd && s.step == stateAfterArrayItem
+//@   ensures normal && old(s.context.Type) == contextTypeShortcut ==> len(s.finds) == old(len(s.finds)) + 2 && s.step == stateEndTop
+//@   ensures !(old(s.context.Type) == contextTypeObject || old(s.context.Type) == contextTypeArray || old(s.context.Type) == contextTypeShortcut) ==> panics
+//@ func stateTypesShortcutSchemaName(s, c)
+//@   props C03 C13
+//@   requires s != nil && s.stack != nil && s.returnToStep != nil && s.prevContextsStack != nil && 1 <= s.index && s.index <= len(s.data)
+//@   maypanic
+//@   modifies *
+//@   ensures isNameByte(c) ==> normal && result == scanContinue && s.step == stateTypesShortcutSchemaName
+//@   ensures isSpace(c) ==> normal && result == scanContinue && s.step == stateTypesShortcutBeforePipe
+//@   ensures c == '|' ==> normal && result == scanContinue && s.step == stateTypesShortcutAfterPipe
+//@ func stateTypesShortcutBeforePipe(s, c)
+//@   props C03 C13
+//@   requires s != nil && s.stack != nil && s.returnToStep != nil && s.prevContextsStack != nil && 1 <= s.index && s.index <= len(s.data)
+//@   maypanic
+//@   modifies *
+//@   ensures isSpace(c) ==> normal && result == scanContinue && s.step == stateTypesShortcutBeforePipe
+//@   ensures c == '|' ==> normal && result == scanContinue && s.step == stateTypesShortcutAfterPipe
